@@ -177,9 +177,30 @@ fn table_descriptors() -> Vec<String> {
     v.push("(La/a/;La/;L/a;)V".into());
     v
 }
+/// class names that are legal in a descriptor (anything but . ; [ /) and contain the separators an implementation might
+/// use internally when it joins or prints parameter lists
+const SPECIAL_NAMES: [&str; 16] = ["p/q<K, V>", "a, b", "a,b", "a b", "a: b", "a:b", " a", "a ", "-a", "a\"b", "a'b", "a\\b", "a\tb", "a|b", ",", ": "];
+fn special_name_descriptors() -> Vec<String> {
+    let mut v = Vec::new();
+    for n in SPECIAL_NAMES {
+        v.push(format!("(L{};I)V", n));
+        v.push(format!("(IL{};)L{};", n, n));
+        v.push(format!("([L{};L{};)[[L{};", n, n, n));
+        v.push(format!("()L{};", n));
+    }
+    v
+}
 fn table_family(acc: &mut Acc, budget: &Budget) {
     let descs = table_descriptors();
     let mut ab = Aligned::new(&[]);
+    for (label, lines) in sig_mappings() {
+        let b = Built { label, bytes: print_file(&lines, Term::Lf), model: Model::fold(&lines) };
+        let _ = cur::with_subjects(&b.bytes, &mut ab, |m, _, c, _| {
+            for d in special_name_descriptors() {
+                check_sig(&b, &d, m, c, acc);
+            }
+        });
+    }
     for names in table_mappings() {
         if budget.exceeded() {
             return;
@@ -403,7 +424,7 @@ pub fn run(tier: Tier) -> i32 {
         prop: "C16",
         tier,
         level: "model_checking",
-        rule: format!("(every answer is read through return_type(), parameters_types(), format_signature() AND Display; with >= 2 parameters the parameters_types() iterator is also consumed through nth / skip / step_by / last / count / size_hint; plus the handle-history pass of props/hist.rs: a second cache / mapper created in the memory of a dropped one) all {} descriptors with <= {} parameters over the type alphabet (primitive, primitive array, mapped object, object named like a primitive, unmapped object containing 'L', nested non-ASCII object array, unmapped names a/b$b and a/b$ whose '$'-prefix is mapped, mapped classes whose obfuscated name lies in java. / javax.{}), plus array dimensions / parameter counts / name lengths of 127..257 and 1000 x every return type incl. V, plus 4..6 parameters of one type; plus the class-table family (every ordered selection of <= 3 of 14 obfuscated class names that differ in '.', '$', '-' or a non-ASCII character at one place, and the whole pool in three orders, as class tables x a descriptor naming each pool name); every single-character deletion, substitution and insertion (10-character alphabet) of each; all strings of <= {} characters over that alphabet; x 3 mappings x {{mapper, cache}}. Oracle: an independent JVM-descriptor parser + R14 (valid => exact parameter list, return type and formatted signature; no parenthesised list / no return type / unterminated object type => none; otherwise only mapper == cache and no panic). distinct = distinct expected results", ndesc, if t { 4 } else { 3 }, if t { ", Z, object array" } else { "" }, strdepth),
+        rule: format!("(every answer is read through return_type(), parameters_types(), format_signature() AND Display; with >= 2 parameters the parameters_types() iterator is also consumed through nth / skip / step_by / last / count / size_hint; plus the handle-history pass of props/hist.rs: a second cache / mapper created in the memory of a dropped one) all {} descriptors with <= {} parameters over the type alphabet (primitive, primitive array, mapped object, object named like a primitive, unmapped object containing 'L', nested non-ASCII object array, unmapped names a/b$b and a/b$ whose '$'-prefix is mapped, mapped classes whose obfuscated name lies in java. / javax.{}), plus array dimensions / parameter counts / name lengths of 127..257 and 1000 x every return type incl. V, plus 4..6 parameters of one type; plus descriptors whose class names contain ', ' / ',' / blanks / ': ' / quotes / backslash / tab; plus the class-table family (every ordered selection of <= 3 of 14 obfuscated class names that differ in '.', '$', '-' or a non-ASCII character at one place, and the whole pool in three orders, as class tables x a descriptor naming each pool name); every single-character deletion, substitution and insertion (10-character alphabet) of each; all strings of <= {} characters over that alphabet; x 3 mappings x {{mapper, cache}}. Oracle: an independent JVM-descriptor parser + R14 (valid => exact parameter list, return type and formatted signature; no parenthesised list / no return type / unterminated object type => none; otherwise only mapper == cache and no panic). distinct = distinct expected results", ndesc, if t { 4 } else { 3 }, if t { ", Z, object array" } else { "" }, strdepth),
         bounds: json!({"descriptors": ndesc, "string_depth": strdepth, "edit_alphabet": EDIT_CHARS.iter().map(|c| c.to_string()).collect::<Vec<_>>(), "mappings": sig_mappings().iter().map(|(l, m)| json!({"label": l, "text": esc(&print_file(m, Term::Lf))})).collect::<Vec<_>>()}),
         assumptions: vec!["a class name inside L...; may not contain [ . ( ) (JVM spec + parenthesis-free so that the parameter list is unambiguous); such strings get no claim".into()],
         trusted_base: vec!["rustc/std".into(), "descriptor parser and R14 in pgmc/src/props/c16.rs".into(), "reference model pgmc/src/model.rs (class lookup R8)".into()],
